@@ -27,18 +27,21 @@ DEEP_OR = b'OR ALL ' * 600 + b'ALL'
 DEEP_NOT = b'NOT ' * 600 + b'ALL'
 DEEP_SEARCH_PAREN = b'(' * 1100 + b'ALL' + b')' * 1100
 
+# more digits than the interpreter converts to an int by default (4300)
+BIGNUM = b'1' * 5000
+
 DOM = {
     'mbx': [b'INBOX', b'Sent', b'&', b'&AOk', b'&A-', b'&AOk-', b'\xe9',
             b'"a\\"b"', b'""', lit(b'a\nb'), b'{3}', b'a*', b'%', b'a' * 300,
             b'inbox', lit(b'abc', binary=True), b'"unterminated', b'a/b',
             b'Missing', b'&-', b'&AAA', b'&,,,,-', b'a&b', b'~', b'/', b'.',
             b'..', b'\x00', lit(b'\x00'), lit(b'\xff\xfe'), b'&2D3eAA-',
-            b'&2D0-'],
+            b'&2D0-', b'&2AA-', b'&3AA-', b'&2ADYAA-'],
     'pat': [b'*', b'%', b'""', b'&', b'\xe9', b'"a\\"', b'*' * 50,
             b'%*%*%*%*%*%*%*%*a', lit(b'*'), b'(', b'&AOk'],
     'set': [b'1', b'1:*', b'*', b'0', b'4294967296', b'9' * 20, b'1,', b':',
             b'1:', b'2:1', b'1,2,3', b'$', b'-1', b'1:2:3', b'*:*', b',',
-            b'1' + b',1' * 2000, b''],
+            b'1' + b',1' * 2000, b'', BIGNUM, b'1:' + BIGNUM],
     'fetchatt': [b'FLAGS', b'UID', b'INTERNALDATE', b'RFC822.SIZE',
                  b'ENVELOPE', b'BODY', b'BODYSTRUCTURE', b'BODY[]',
                  b'BODY.PEEK[]', b'BODY[HEADER]', b'BODY[TEXT]', b'BODY[1]',
@@ -59,7 +62,11 @@ DOM = {
                  b'BODY[HEADER.FIELDS (' + lit(b'x\ny') + b')]',
                  b'BODY[HEADER.FIELDS (\xe9)]', DEEP_PAREN, b'BOGUS',
                  b'BODY.PEEK', b'(BODY[] BODY[])', b'BODY[MIME]',
-                 b'BODY[1.HEADER.FIELDS (a)]', b'BINARY[1]<0.1>'],
+                 b'BODY[1.HEADER.FIELDS (a)]', b'BINARY[1]<0.1>',
+                 b'BODY[]<0.' + BIGNUM + b'>', b'BODY[]<' + BIGNUM + b'.1>',
+                 b'BODY[' + BIGNUM + b']',
+                 b'BODY[HEADER.FIELDS (' + lit(b'Subject\n') + b')]',
+                 b'BODY[HEADER.FIELDS (' + lit(b'Subject\r') + b')]'],
     'flags': [b'(\\Seen)', b'()', b'(\\Bogus)', b'(\\*)', b'(kw)', b'(\\Seen',
               b'\\Seen', b'("q")', b'((\\Seen))', b'(\\Recent)',
               b'(\\Seen \\Seen)', b'(\xe9)', b'(' + b'k ' * 3000 + b'k)',
@@ -75,6 +82,7 @@ DOM = {
              b'"01-Jan-0001 00:00:00 +1400"'],
     'lit': [lit(MSG), lit(b''), b'{32}', lit(MSG, binary=True),
             b'{1000000001+}\r\n', b'{99999999999999999999+}\r\n',
+            b'{' + BIGNUM + b'+}\r\n', b'{' + BIGNUM + b'}',
             lit(b'\x00\xff'), lit(b'\r'), lit(b'a'), b'"quoted"', b'{-1+}\r\n',
             b'{3+}\r\nabcEXTRA', lit(b'Subject: ' + b're: ' * 3000 + b'x\r\n\r\n'),
             lit(b'Date: garbage\r\n\r\n')],
@@ -103,7 +111,8 @@ DOM = {
                    b'HEADER "" ""', b'HEADER \xe9 x', b'FROM ' + lit(b'a\x00b'),
                    b'SENTBEFORE 30-Feb-2020', b'ON 1-jan-2020',
                    b'UID 1:*,1:*', b'0', b'MODSEQ 1', b'BOGUS',
-                   b'SUBJECT ' + b'x' * 5000, b'OR (ALL) (NOT (ALL))'],
+                   b'SUBJECT ' + b'x' * 5000, b'OR (ALL) (NOT (ALL))',
+                   b'LARGER ' + BIGNUM, b'UID ' + BIGNUM, BIGNUM],
     'idlist': [b'NIL', b'("a" "b")', b'("a")',
                b'(' + b' '.join(b'"k%d" "v"' % i for i in range(61)) + b')',
                b'(a b)', b'("a" NIL)', b'((', b'()', b'nil',
